@@ -249,7 +249,8 @@ def shape_path(shape, base, i):
         # stored and relocated as given, never normalised
         return j("\u00fc", "e\u0301%s.wav" % n)
     if shape == "deep":
-        return j("a", "b", "c", "d%s.wav" % n)
+        # the first two components spell the relative load directory of the b axis ("rel/dir"): joining is unconditional
+        return j("rel", "dir", "c", "d%s.wav" % n)
     if shape == "backslash":
         # a backslash is an ordinary character of a POSIX file name, not a separator
         return j("2024\\06", "unit\\7%s.wav" % n)
